@@ -78,7 +78,7 @@ def shards(tier):
 
 def floors(tier):
     return {"cases": 20000, "insertions": 20000, "insertions_depth2plus": 1000, "would_fail_values": 8000,
-            "next_to_ref": 1000, "base_uri_cases": 100, "own_id_next_to_ref": 100, "foreign_sibling_matrix_cases": 50000, "empty_or_hash_ref_cases": 1000, "cases_with_errors": 5000, "foreign_names_used": 150}
+            "next_to_ref": 1000, "base_uri_cases": 100, "own_id_next_to_ref": 100, "foreign_sibling_matrix_cases": 50000, "root_ref_cases": 500, "embedded_lookalike_cases": 2000, "empty_or_hash_ref_cases": 1000, "cases_with_errors": 5000, "foreign_names_used": 150}
 
 
 def errors_of(d, schema, inst, resolver=None):
@@ -216,6 +216,46 @@ def base_uri_cases(ctx, d, rng):
                     inst, resolver_factory=rf)
 
 
+def embedded_lookalikes(ctx, d, rng):
+    """The value of a foreign keyword is data: even when it contains objects that carry the id (either spelling) of a
+    document the schema refers to, it must never become the target of a reference."""
+    from jsonschema import RefResolver
+    U_H = "vf://handler.example/lib/ext.json"
+    U_S = "http://store.example/lib/ext.json"
+    ext = {"type": "integer"}
+    fake = {"type": "string"}
+    hold = "extends" if d == 3 else "allOf"
+
+    def rf(schema):
+        return RefResolver.from_schema(schema, id_of=impl.CLS[d].ID_OF, store={U_S: ext}, handlers={"vf": lambda url: ext})
+    for U_ in (U_H, U_S):
+        S = {"properties": {"a": {"$ref": U_}, "b": {hold: [{"$ref": U_ + "#"}]}}}
+        for idk in ("id", "$id"):
+            for name in ("x-note", "examples", "default", "definitions2", "$defs", "title", "const" if d <= 4 else "x-const", "dependentSchemas"):
+                for val in ({idk: U_, **fake}, [{idk: U_, **fake}], {"k": {idk: U_, **fake}}, {idk: U_ + "#", **fake}):
+                    for S2 in (dict(S, **{name: val}), {"properties": dict(S["properties"], c={name: val})},
+                               {"properties": {"a": {"$ref": U_, name: val}, "b": S["properties"]["b"]}}):
+                        log = [{"path": [], "name": name, "would_fail": True, "next_to_ref": False, "depth": 0}]
+                        for inst in ({"a": 1, "b": 2}, {"a": "s", "b": "t"}, {"a": 1.5}):
+                            ctx.count("embedded_lookalike_cases")
+                            compare(ctx, d, S, S2, log, inst, resolver_factory=rf)
+
+
+def root_ref_cases(ctx, d, rng):
+    """A reference object standing at the root, with any keyword at all next to it."""
+    for ref, defs in (("#/definitions/a", {"a": {"type": "integer"}}), ("#/definitions/a", {"a": {"type": "object", "properties": {"p": {"$ref": "#"}}}})):
+        S = {"$ref": ref, "definitions": defs}
+        for name, val in ASSERTING + [(n, WOULD_FAIL[n](rng)) for n in ("const", "not", "minProperties", "contains", "if") if n in FOREIGN[d]]:
+            if d == 3 and name == "required":
+                continue
+            for S2 in (dict(S, **{name: val}), dict({name: val}, **S)):
+                log = [{"path": [], "name": name, "would_fail": True, "next_to_ref": True, "depth": 0}]
+                for inst in (1, "s", {"p": 1}, {"p": {"p": "x"}}, [1], None):
+                    ctx.count("next_to_ref")
+                    ctx.count("root_ref_cases")
+                    compare(ctx, d, S, S2, log, inst)
+
+
 def empty_ref_cases(ctx, d, rng):
     """Siblings of `$ref` are ignored whatever the reference string is - including the empty
     reference "" (same document, like "#") and "#"."""
@@ -281,6 +321,8 @@ def run(ctx):
         if ctx.mine(d):
             base_uri_cases(ctx, d, rr)
             empty_ref_cases(ctx, d, rr)
+            root_ref_cases(ctx, d, rr)
+            embedded_lookalikes(ctx, d, rr)
     idx = 0
     for d in impl.DRAFTS:
         idx = foreign_sibling_matrix(ctx, d, rr, used, idx)
